@@ -49,6 +49,10 @@ def make_config(rng, nt, ns, cache_mode, twins, repeats):
 
     nx, ny = 16, 12
     xmax, ymax = 160.0, 96.0
+    one_row = bool(rng.random() < 0.12)
+    if one_row:
+        # a vertical-plane (crosswind-integrated) set-up: one row of cells
+        ny, ymax = 1, 8.0
     ref_lat, ref_lon = 48.0, 9.0
     R = 6_371_000.0
     towers = []
@@ -61,6 +65,8 @@ def make_config(rng, nt, ns, cache_mode, twins, repeats):
             x, y, zm = float(rng.uniform(20, 140)), float(rng.uniform(10, 80)), float(rng.uniform(3, 8))
         if k == 0:
             towers_xy = [(x, y, zm)]
+        if one_row:
+            y = 0.0
         towers.append({"name": f"{'ZYXW'[k]}tower{k}", "lat": ref_lat + math.degrees(y / R),
                        "lon": ref_lon + math.degrees(x / (R * math.cos(math.radians(ref_lat)))), "z_m": zm})
     if repeats and ns >= 2:
@@ -96,6 +102,8 @@ def make_config(rng, nt, ns, cache_mode, twins, repeats):
         met["timestamps"] = ["morning", "noon", "evening", "night"][:ns]
     dom = {"nx": nx, "ny": ny, "xmax": xmax, "ymax": ymax, "nz": int(rng.integers(4, 9)), "ref_lat": ref_lat, "ref_lon": ref_lon,
            "modes": [16, 12]}
+    if one_row:
+        dom["modes"] = [512, 512]   # an odd padded size takes no even mode count: every component is kept
     if cache_mode != "on_default_halo":
         dom["halo"] = float(rng.choice([0.0, 20.0, 33.0]))
     if rng.random() < 0.4:
@@ -109,6 +117,7 @@ def make_config(rng, nt, ns, cache_mode, twins, repeats):
         raw["solver"]["src_loc"] = [float(rng.uniform(0.15, 0.85) * xmax), float(rng.uniform(0.15, 0.85) * ymax)]
         raw["solver"]["surface_flux_shape"] = str(rng.choice(["diamond", "circle", "point"]))
     raw["_timestamps_kind"] = tk
+    raw["_one_row"] = one_row
     cfg = parse_config_dict({k: v for k, v in raw.items() if not k.startswith("_")})
     raw["_tower_moved_by_hand"] = None
     if twins == "distinct" and rng.random() < 0.3:
@@ -242,7 +251,7 @@ def run_case(case):
     # documents that it does not take one, so it is compared with the built-in source only)
     user_flux, table_u = None, None
     if not raw["solver"]["footprint"] and rng.random() < 0.6:
-        user_flux = rng.normal(size=(12, 16)) + 2.0
+        user_flux = rng.normal(size=(cfg.domain.ny, 16)) + 2.0
         table_u = {(tw.name, i): bldfm.run_bldfm_single(cfg, tw, met_index=i, surface_flux=user_flux) for tw in cfg.towers for i in range(ns)}
 
     # ---------------- schedule injection
@@ -469,6 +478,28 @@ def run_case(case):
             buckets[f"delays:{scheme}"] = 1
             if len(tasks) >= 2:
                 sigs.append(f"{case['idx']}|{strat}|{workers}|{scheme}")
+        # the same configuration object edited in place (a user's sweep: "cfg.met.wind_dir = ...", a mast moved) and handed to the parallel
+        # driver again, same worker count: the second run is the run of the configuration as it is now
+        if case["idx"] % 3 == 0 and pick:
+            strat2, workers2 = pick[-1]
+            delays.clear()
+            slow["on"] = False
+            wd_ = cfg.met.wind_dir
+            cfg.met.wind_dir = [float((d_ + 57.0) % 360.0) for d_ in wd_] if isinstance(wd_, list) else float((wd_ + 57.0) % 360.0)
+            cfg.towers[0].x = float(cfg.towers[0].x + 10.0)
+            cfg_given = _copy.deepcopy(cfg)
+            rc.NUM_THREADS = 1
+            iface.run_bldfm_single = real_single
+            table = {(tw.name, i): bldfm.run_bldfm_single(cfg, tw, met_index=i) for tw in cfg.towers for i in range(ns)}
+            iface.run_bldfm_single = wrapped
+            clean_cache()
+            ctx2 = dict(strategy=strat2, workers=workers2, options=desc, history="second parallel run on the same configuration object after wind_dir and a tower were edited in place")
+            try:
+                res2 = iface.run_bldfm_parallel(cfg, max_workers=workers2, parallel_over=strat2)
+                counters["parallel_calls_after_in_place_edits"] = counters.get("parallel_calls_after_in_place_edits", 0) + 1
+                compare("run_bldfm_parallel", res2, ctx2)
+            except BaseException as e:  # noqa
+                viol.append(dict(what="parallel_driver_raises", exc=f"{type(e).__name__}: {str(e)[:200]}", **ctx2))
     finally:
         np.savez = real_savez
         iface.run_bldfm_single = real_single
@@ -482,6 +513,8 @@ def run_case(case):
                      "towers_after": [(t.name, t.x, t.y) for t in cfg.towers], "options": desc})
     if raw.get("_tower_moved_by_hand"):
         buckets["tower_moved_by_hand"] = 1
+    if raw.get("_one_row"):
+        buckets["domain:one_row_of_cells"] = 1
     buckets[f"timestamps:{raw['_timestamps_kind']}"] = 1
     buckets.update({f"shape:{nt}x{ns}": 1, f"cache:{cache_mode}": 1, f"parent_threads:{parent_threads}": 1})
     buckets[f"towers:{twins}"] = 1
